@@ -55,3 +55,16 @@ Proof. exact update_stores_gbs. Qed.
 
 Example C09_nonvacuous : (0 < 2)%nat /\ 0 <= 0.3 /\ rsum [0.9; 0.1] = 1 /\ Rltb 0.1 (thr 0.3 2) = true.
 Proof. exact C09_nonvacuous_proof. Qed.
+
+(* ---- round 5: the sliding reference over a whole solver loop (Model_minerals.solver_loop / update_steps, tied
+   to the `while solver.status == "running"` loop of Mineral.update_orientations by
+   Inst_minerals_drv.update_loop_inst_{1_2,1_3,2_2,3_2}) ------------------------------------------------------ *)
+From PV Require Import Proofs_driver.
+
+(* whatever the integrator's state vectors at the earlier steps of an update were, the snapshot that is stored
+   is `update` applied to the LAST vector with the snapshot the update STARTED from as sliding reference
+   (C09_update_stores_gbs then gives the per-grain rule) *)
+Theorem C09_sliding_reference_is_start_of_update : forall n chi (h : @history NumR) (ys : list (list R)) (y : list R),
+  snd (@update_steps NumR n chi h (map Ok (ys ++ [y]))) = h ++ [snd (@update NumR n chi (@last_snapshot NumR h) y)]
+  /\ fst (@update_steps NumR n chi h (map Ok (ys ++ [y]))) = Ok (fst (@update NumR n chi (@last_snapshot NumR h) y)).
+Proof. exact update_steps_stores. Qed.
